@@ -162,6 +162,11 @@ type UpdateSpec struct {
 	UpdateMask *fieldmaskpb.FieldMask // nil = all writable
 	Writable   *fieldmaskpb.FieldMask // nil = everything (already merged with extra-writable / all-writable)
 	ResetMask  *fieldmaskpb.FieldMask
+	// PathByPath: the update mask is the one mask the caller passed (not a union of several options): every path it
+	// names is judged on its own, so a path wholly outside the writable fields is "a field outside W" even when a
+	// broader (parent) path stands next to it. For unions of several mask options what a covered child path means is
+	// left open (the tree normalises the union).
+	PathByPath bool
 }
 
 // UpdateVerdict classifies what the contract says about a write.
@@ -186,8 +191,15 @@ func (s UpdateSpec) Classify(md protoreflect.MessageDescriptor) (UpdateVerdict, 
 	}
 	if s.UpdateMask != nil && len(s.UpdateMask.Paths) > 0 && s.Writable != nil {
 		broader := false
-		// a mask denotes a set of fields: a path covered by another (parent) path adds nothing
-		for _, p := range NormalizePaths(s.UpdateMask.Paths) {
+		// a mask denotes a set of fields: a path covered by another (parent) path adds nothing. (Judging every path on its
+		// own would demand that [a, a.d] with W=[a.c] is rejected; the tree does reject that when it arrives as one mask but
+		// accepts the same set when it arrives as WithUpdateMask([a]) + WithMoreUpdateMask([a.d]), whose union is
+		// normalised - so which of the two a parent+child mask gets is left open here, see DESIGN 7.5)
+		paths := NormalizePaths(s.UpdateMask.Paths)
+		if s.PathByPath {
+			paths = s.UpdateMask.Paths
+		}
+		for _, p := range paths {
 			if Covers(s.Writable.Paths, p) {
 				continue
 			}
